@@ -14,8 +14,8 @@ ASSUMPTIONS = ["frame names unique in the matrix and signal names unique within 
 TRUSTED = ["fnmatch.fnmatchcase (modelled by globMatch, validated in C11's 'glob' cases)"]
 CORRESPONDENCE = "CanMatrix bulk operations == CanVerif.BMat.apply (Model/Bulk.lean)"
 
-FNAMES = ["Msg", "Msg_A", "A_Msg", "Diag_Req", "Diag_Resp", "Req", "Status", "StatusExt", "Ext"]
-SNAMES = ["sig", "sig_a", "a_sig", "speed", "speed_kmh", "kmh", "x", "xy", "yx", "cnt", "cnt_2", "s1", "s2", "s10"]
+FNAMES = ["Msg", "Msg_A", "A_Msg", "Diag_Req", "Diag_Resp", "Req", "Status", "StatusExt", "Ext", "Ext_Ext", "Msg_Msg", "gMsg", "tExt", "Msgs", "Diag_D"]   # incl. names whose rest shares characters with the pattern
+SNAMES = ["sig", "sig_a", "a_sig", "speed", "speed_kmh", "kmh", "x", "xy", "yx", "cnt", "cnt_2", "s1", "s2", "s10", "x_x", "kmh_kmh", "sig_sig", "gsig", "a_a", "hkmh", "xx", "sigs"]
 ATTRS = ["GenA", "GenB", "Cycle", "Note", "A"]
 SIG_PATS = ["sig*", "*sig", "s?", "*", "speed*", "*kmh", "x*", "*x", "s[12]", "cnt_2", "sig", "nomatch", "s1*", "*_a"]
 FRAME_PATS = ["Msg*", "*Msg", "Diag_*", "*Ext", "Status", "Req", "*Req", "Status*", "nomatch", "Msg"]
